@@ -23,7 +23,7 @@ UNITS_OF = {
     "C16": ["hash"],
     "C20": ["iter", "fixed_vector"],
     "C05": ["log"], "C10": ["log"], "C09": ["log"],
-    "C04": ["options"], "C11": ["options"], "C14": ["options"], "C03": ["options"], "C01": ["options"], "C02": ["options"], "C12": ["options"], "C13": ["options"],
+    "C04": ["options"], "C11": ["options"], "C14": ["options"], "C03": ["options"], "C01": ["options"], "C02": ["options"], "C12": ["options"], "C13": ["options"], "C15": ["options"],
 }
 
 
